@@ -47,7 +47,7 @@ def specWIbuf (ty : String) (fmt : Format) (feats : Features) (v : Int) (buflen 
   let s := specWI ty fmt feats v
   match IntTy.ofName ty, buflen.toNat? with
   | some t, some n =>
-    if n < LexVerif.Model.WriteInt.bufferSizeConst feats t fmt.mantissaRadix then s ++ " || panic" else s
+    if n < LexVerif.Model.WriteInt.bufferSizeConstFmt feats t fmt.mantissaRadix fmt.requiredMantissaSign then s ++ " || panic" else s
   | _, _ => s
 
 def pOptsOf (a : List String) : POpts :=
